@@ -168,9 +168,10 @@ def main(argv):
     H.time = A.time = type("T", (), {"time": staticmethod(lambda: clock[0])})
     try:
         for use_vpc in (True, False):
-            for ra in (0, 1, 2):
+          for ra in (0, 1, 2):
+            for also_dropped in ((), (2,), (0, 3), (3,)):
                 C = Cluster(rng)
-                nodes = pool_nodes[:3]
+                nodes = pool_nodes[:4]
                 C.advertised = list(nodes)
                 dead = nodes[1]
                 dead_addr = ((dead[1] if use_vpc else dead[0]), str(dead[2]))
@@ -182,8 +183,9 @@ def main(argv):
                 C.refuse = True
                 C.world.connect_hook = hook
                 C.world.tag = "failover"
-                case = {"use_vpc": use_vpc, "retry_attempts": ra, "scenario": "node marked dead, then dropped from the advertisement, then dead_timeout elapses"}
-                ctx.case(("failover-scaledown", use_vpc, ra))
+                case = {"use_vpc": use_vpc, "retry_attempts": ra, "scenario": "node marked dead, then dropped from the advertisement (together with healthy nodes "
+                        f"{list(also_dropped)}), then dead_timeout elapses"}
+                ctx.case(("failover-scaledown", use_vpc, ra, also_dropped))
                 ctx.count("failover-scale-down")
                 try:
                     cl = AWSElastiCacheHashClient(CFG, socket_module=C.sm, use_vpc=use_vpc, default_noreply=False, retry_attempts=ra, retry_timeout=1, dead_timeout=60, ignore_exc=True)
@@ -191,7 +193,7 @@ def main(argv):
                         clock[0] += 2
                         for k in keys:
                             cl.get(k)
-                    C.advertised = [n for n in nodes if n != dead]
+                    C.advertised = [n for i, n in enumerate(nodes) if n != dead and i not in also_dropped]
                     C.version += 1
                     cl.reconfigure_nodes()
                     C.refuse = False
